@@ -7,10 +7,13 @@ from cpverif import spec as S
 from cpverif.lib import L
 
 
-def chart_text(res: int, tempo, sections: dict[str, list[str]], events=(), fmt: int = 0) -> str:
+def chart_text(res: int, tempo, sections: dict[str, list[str]], events=(), fmt: int = 0, strays=()) -> str:
+    # ``strays``: lines of the instrument section repeated verbatim in [SyncTrack] and [Events], where
+    # they are unparsable noise (what a line means depends on its section, not on its text)
+    strays = list(strays)
     secs = [("Song", [f"Resolution = {res}"]),
-            ("SyncTrack", ["0 = TS 4"] + [f"{t} = B {n}" for t, n in tempo]),
-            ("Events", [S.event_line(e) for e in events])]
+            ("SyncTrack", ["0 = TS 4"] + [f"{t} = B {n}" for t, n in tempo] + strays[:2]),
+            ("Events", strays[1:] + [S.event_line(e) for e in events])]
     secs += [(h, body) for h, body in sections.items()]
     if not fmt:
         return S.render_sections(secs)
@@ -47,20 +50,36 @@ def _decoys(header: str, lines: list[str], mode: int) -> dict[str, list[str]]:
             return []
         return body
 
+    def thinned():
+        # every other tick group removed: the surviving groups are line-for-line identical to the target's
+        # but have other predecessors (anything remembered per group must not be reused across tracks)
+        groups, order = {}, []
+        for ln in lines:
+            t = ln.split(" ", 1)[0]
+            if t not in groups:
+                groups[t] = []
+                order.append(t)
+            groups[t].append(ln)
+        body = [ln for k, t in enumerate(order) if k % 2 == 0 for ln in groups[t]]
+        # a forced flag on what is now the FIRST note group of the decoy would be invalid: drop that line
+        first_note_tick = next((b.split(" ", 1)[0] for b in body if " = N " in b), None)
+        return [b for b in body if not (b.split(" ", 1)[0] == first_note_tick and " = N 5 " in b)]
+
     out = {}
     if mode & 1:
-        out[before] = cut(max(1, len(lines) // 2))
+        out[before] = thinned() if k % 2 else cut(max(1, len(lines) // 2))
     out[header] = lines
     if mode & 2:
-        out[after] = cut(len(lines))
+        out[after] = cut(len(lines)) if k % 2 else thinned()
     return out
 
 
 def parse_track(ctx, res: int, tempo, lines: list[str], header: str, rc, fmt: int = 0, decoy: int | None = None):
     """Returns (chart, track) or (None, None) after reporting a violation."""
     if decoy is None:
-        decoy = (fmt >> 2) % 4 if fmt else 0
-    text = chart_text(res, tempo, _decoys(header, lines, decoy), fmt=fmt)
+        decoy = (fmt >> 2) % 4 if fmt else (len(lines) % 5 if len(lines) % 5 < 4 else 0) if len(lines) % 2 else 0
+    strays = lines[:: max(1, len(lines) // 3)][:3] if (not fmt and len(lines) % 3 == 0) else ()
+    text = chart_text(res, tempo, _decoys(header, lines, decoy), fmt=fmt, strays=strays)
     try:
         chart = L.parse(text)
     except Exception as e:  # noqa: BLE001
